@@ -190,7 +190,16 @@ def run(case):
             import random as _r
             nev += 1
             fs.restart()
-            mixed = list(w.wenc) + [w.decryptors[j] for j in able if w.decryptors[j] not in w.wenc]
+            # encrypt-only entries are kept only where they cannot shadow a supplied decryptor of the same kind
+            # and key selector (select_encryptor takes the first entry of the required class and selector; a
+            # public-key-only entry listed before the private one is outside "given matching decryptors")
+            decs_ = [w.decryptors[j] for j in able]
+            dsel = {d.key_selector for d in decs_ if isinstance(d, bf.EccDecryptor)}
+            mixed = [e for e in w.wenc if not (type(e) is bf.EccEncryptor and e.key_selector in dsel)]
+            mixed += [d for d in decs_ if d not in mixed]
+            eccb = [b for b in case["blocks"] if b["t"] == "ecc"]
+            extra_sel = eccb[0]["sel"] if eccb else 0
+            mixed += [e for e, _ in prov.decoys_for(env, extra_sel)][:2]
             _r.Random(case["wrong"] * 7919 + len(mixed)).shuffle(mixed)
             out.probes["writer-list-reused-for-reading"] += 1
             if any(type(x) is bf.EccEncryptor for x in mixed):
